@@ -202,4 +202,21 @@ def gen(rng, tier):
         elif r < 8: reqs.append("C09 iter64 %s %s" % (wu(v), cs))
         elif r < 9: reqs.append("C09 i.iter32 %s %s" % (wi(signed(rng, v)), cs))
         else: reqs.append("C09 i.iter64 %s %s" % (wi(signed(rng, v)), cs))
+    # api-coverage block: provided `to_ne_bytes` / `from_ne_bytes` (little-endian on this target): values on byte and
+    # digit boundaries of both signs (the -2^(8k-1) exception of the signed form), byte strings with sign-extension
+    # / zero padding, empty input
+    nv = [0, 1, 127, 128, 255, 256, 32767, 32768, (1 << 63) - 1, 1 << 63, MAX, B, (1 << 127), (1 << 128) - 1]
+    nv += [big(rng, n) for n in (1, 2, 3, 5)] + [1 << (8 * k - 1) for k in (1, 2, 8, 9, 16, 17)]
+    for v in nv:
+        reqs.append("C09 u.to_ne_bytes %s" % wu(v))
+        reqs.append("C09 i.to_ne_bytes %s" % wi(v))
+        reqs.append("C09 i.to_ne_bytes %s" % wi(-v))
+    for n in (0, 1, 2, 7, 8, 9, 16, 17, 24):
+        for pat in range(4):
+            bs = [rng.randrange(256) for _ in range(n)]
+            if n and pat == 1: bs[-1] = 0
+            if n and pat == 2: bs[-1] = 0xff
+            if n > 1 and pat == 3: bs[-1] = 0xff; bs[-2] |= 0x80
+            reqs.append("C09 u.from_ne_bytes %s" % wbytes(bs))
+            reqs.append("C09 i.from_ne_bytes %s" % wbytes(bs))
     return reqs
